@@ -145,6 +145,7 @@ PROPS = {
         level_note=_CHAIN_NOTE,
     ),
     "C14": dict(
+        tie=["Ucan.Props.Tie.Tokenize"],
         props_module="Ucan.Props.C14",
         streams=["selparse", "polipld"],
         technique="Lean 4 proofs: the tokenizer partitions its input (induction over the byte list with the loop state generalised), every accepted selector is the concatenation of tokens each classified into one segment keeping its text, unterminated quotes are rejected, the printed text of an accepted selector parses to the very same selector (the tokenizer is characterised by a quote-state scan; well-formed tokens concatenated re-tokenize to themselves), and FromIPLD∘ToIPLD is the identity up to selector re-printing (mutual structural induction over the statement tree); tied by exhaustive parsing of all strings ≤ N over the 11 syntax characters and by policy-node round trips incl. DAG-JSON",
